@@ -85,10 +85,26 @@ func vhRequest(sys *System, ctx *Context, op int, loc string) vhResp {
 	case 7: // a client writes the creation marker property itself, with an odd value
 		_, err := sys.AddFact(ctx, loc, "", `{"!createdAt":5}`)
 		return vhResp{nil, err != nil}
+	case 8: // the location's own cache hint, with a value that is not a number of milliseconds
+		_, err := sys.AddFact(ctx, loc, "", `{"!cacheTTL":"5m"}`)
+		return vhResp{nil, err != nil}
+	case 10: // the location's own cache hint (milliseconds)
+		if !vhHintSet {
+			// concrete values (the API takes JSON text, which the engine parses only when concrete)
+			vhHintSet, vhHint = true, []int{0, 1, 5000, 20000}[vchoose(4)]
+		}
+		_, err := sys.AddFact(ctx, loc, "", `{"!cacheTTL":`+strconv.Itoa(vhHint)+`}`)
+		return vhResp{nil, err != nil}
 	}
 	vassume(false)
 	return vhResp{}
 }
+
+// the symbolic cache hint is one value per history (both systems of a differential run get it)
+var (
+	vhHintSet bool
+	vhHint    int
+)
 
 func vhLocName(i int) string { return "loc" + strconv.Itoa(i) }
 
